@@ -16,6 +16,7 @@ set_option linter.unusedTactic false
 set_option linter.unreachableTactic false
 set_option linter.unusedVariables false
 set_option linter.unnecessarySeqFocus false
+set_option linter.unusedSimpArgs false
 
 namespace C13
 open scoped C13L
@@ -31,30 +32,59 @@ theorem gen_psd_rotations :
     (Generated.C13.psdPreRot = Rot.fftshift ∨ Generated.C13.psdPreRot = Rot.ifftshift ∨ Generated.C13.psdPreRot = Rot.none) := by
   decide
 
-/-- the normalisation of the source, `coef = S2·fs·fs` with `fs = 1/dx`, is the model's and equals `Σw² / dx²` -/
-theorem gen_psd_coef (S2 dx : ℝ) (hdx : dx ≠ 0) :
-    Generated.C13.psdCoef S2 dx = Model.C13.psdCoef S2 dx ∧ Generated.C13.psdCoef S2 dx = S2 / dx ^ 2 := by
+/-- what `psd` RETURNS as power (last-definition dataflow of the current source: rebinding, `/=`, reordering and
+renaming are followed), as a function of `P = |spectrum|²`, `S2 = Σ window²` and `dx`: it is `P / (S2·fs²)`, `fs = 1/dx`
+— the model's normalisation — i.e. `P·dx²/S2`.  Proved as a field identity, not by matching the spelling. -/
+theorem gen_psd_power (P S2 dx : ℝ) (hdx : dx ≠ 0) (hS : S2 ≠ 0) :
+    Generated.C13.psdPower P S2 dx = P / Model.C13.psdCoef S2 dx ∧
+    Generated.C13.psdPower P S2 dx = P * dx ^ 2 / S2 := by
   constructor
-  · simp only [Generated.C13.psdCoef, Model.C13.psdCoef, ofInt_eq, Int.cast_one] <;> field_simp
-  · simp only [Generated.C13.psdCoef, ofInt_eq, Int.cast_one] <;> field_simp
+  · simp only [Generated.C13.psdPower, Model.C13.psdCoef, ofInt_eq, ofFrac_eq, Int.cast_one, Int.cast_ofNat, npow_eq] <;> field_simp <;> ring
+  · simp only [Generated.C13.psdPower, Model.C13.psdCoef, ofInt_eq, ofFrac_eq, Int.cast_one, Int.cast_ofNat, npow_eq] <;> field_simp <;> ring
 
-/-- the x frequency axis is built from the number of columns, the y axis from the number of rows, and
-they are broadcast x along rows / y along columns -/
+/-- the `S2` that normalises the power is the sum of squares of the very window that multiplied the data before the
+transform, and that window is `make_window(height, dx, window)`: made for this map and spacing, selected by the caller's
+`window` argument (dataflow facts of the current source; "recognised and different" makes this false) -/
+theorem gen_psd_window :
+    Generated.C13.psdWindowSameInTransformAndS2 = true ∧
+    Generated.C13.psdWindowMadeForHeightFromWindowArgument = true := by
+  decide
+
+/-- the x frequency axis is built from the number of columns, the y axis from the number of rows, the first output of the
+broadcast is returned as x and the second as y, and the broadcast lays x along rows / y along columns -/
 theorem gen_psd_axes_shape :
     Generated.C13.psdUxShapeAxis = 1 ∧ Generated.C13.psdUyShapeAxis = 0 ∧
+    Generated.C13.psdUxBroadcastSlot = 0 ∧ Generated.C13.psdUyBroadcastSlot = 1 ∧
     Generated.C13.broadcastXAlongRowsYAlongColumns = true := by
   decide
 
+/-- `fttools.forward_ft_unit(dx, n)` (translated: the rotation it applies to `fftfreq(n, dx)`, arguments in that order) is the
+hand model `axisFreqNum`: sample `i` of the returned axis is `(i - n//2)/(n dx)` -/
+theorem gen_axis_unit (n i : Int) (h0 : 0 ≤ i) (hi : i < n) :
+    Generated.C13.axisFftfreqCountThenSpacing = true ∧
+    shownFreqNum Generated.C13.axisRot n i = axisFreqNum n i := by
+  refine ⟨by decide, ?_⟩
+  simp only [shownFreqNum, axisFreqNum, Generated.C13.axisRot, fftfreqNum, rotSrc_fftshift_eq n i h0 hi]
+  split <;> split <;> omega
+
 /-- `bandlimited_rms` integrates twice — first over one of the two axes of the map, then over axis 0 of what is
 left — and of the two steps handed to the integrator one is measured along axis 0 of `r` and the other along
-axis 1, each between the centre sample and its neighbour (the result depends only on the product of the two steps
-and not on the order of the axes: `trapz2_step_product`, `trapz2_axis_order`) -/
+axis 1, each between the centre sample and the sample BEFORE it (lag −1: index `c − 1` exists, or wraps to the last
+sample, on every axis length ≥ 1; lag +1 would be out of range on 1- and 2-sample axes).  The result depends only on
+the product of the two steps and not on the order of the axes: `trapz2_step_product`, `trapz2_axis_order`. -/
 theorem gen_brms_steps :
     Generated.C13.brmsIntegrations = 2 ∧
     Generated.C13.brmsIntAxis 0 < 2 ∧ Generated.C13.brmsIntAxis 1 = 0 ∧
     Generated.C13.brmsStepAxis 0 + Generated.C13.brmsStepAxis 1 = 1 ∧
-    (Generated.C13.brmsStepLag 0).natAbs = 1 ∧ (Generated.C13.brmsStepLag 1).natAbs = 1 := by
+    Generated.C13.brmsStepLag 0 = -1 ∧ Generated.C13.brmsStepLag 1 = -1 := by
   decide
+
+/-- the 1-D form (`r`, `psd` one-dimensional): the step is measured between the centre sample `n // 2` and the sample
+before it -/
+theorem gen_brms_steps_1d (s : Int) :
+    Generated.C13.brmsCentre1D s = s / 2 ∧ Generated.C13.brmsStepLag1D = -1 := by
+  refine ⟨?_, by decide⟩
+  simp only [Generated.C13.brmsCentre1D]
 
 /-- the reference sample of `bandlimited_rms` is the origin `s // 2` of each axis -/
 theorem gen_brms_centre (s : Int) : Generated.C13.brmsCentre s = s / 2 := by
@@ -72,34 +102,44 @@ theorem gen_brms_portable : Generated.C13.brmsIntegratorPortable = true := by
 
 /-- the band `(flow, fhigh)` that `bandlimited_rms` ends up with, for every way of giving it (symbolic execution
 of the argument handling of the current source): periods are turned into frequencies by reciprocals, short
-period ↦ upper edge, long period ↦ lower edge; a missing lower edge is `0`, a missing upper edge is `r.max()` -/
+period ↦ upper edge, long period ↦ lower edge; a missing lower edge is `0`, a missing upper edge is `r.max()`;
+one edge as a period and the other as a frequency: both are honoured -/
 theorem gen_brms_band (a b dmax : Rat) :
     Generated.C13.brmsBandPeriodLow a dmax = (0, 1 / a) ∧
     Generated.C13.brmsBandPeriodHigh b dmax = (1 / b, dmax) ∧
     Generated.C13.brmsBandPeriodBoth a b dmax = (1 / b, 1 / a) ∧
     Generated.C13.brmsBandFreqLow a dmax = (a, dmax) ∧
     Generated.C13.brmsBandFreqHigh b dmax = (0, b) ∧
-    Generated.C13.brmsBandFreqBoth a b dmax = (a, b) := by
-  refine ⟨?_, ?_, ?_, ?_, ?_, ?_⟩ <;>
+    Generated.C13.brmsBandFreqBoth a b dmax = (a, b) ∧
+    Generated.C13.brmsBandMixedPeriodUpFreqLow a b dmax = (b, 1 / a) ∧
+    Generated.C13.brmsBandMixedPeriodLowFreqUp a b dmax = (1 / a, b) := by
+  refine ⟨?_, ?_, ?_, ?_, ?_, ?_, ?_, ?_⟩ <;>
     simp only [Generated.C13.brmsBandPeriodLow, Generated.C13.brmsBandPeriodHigh, Generated.C13.brmsBandPeriodBoth,
-      Generated.C13.brmsBandFreqLow, Generated.C13.brmsBandFreqHigh, Generated.C13.brmsBandFreqBoth]
+      Generated.C13.brmsBandFreqLow, Generated.C13.brmsBandFreqHigh, Generated.C13.brmsBandFreqBoth,
+      Generated.C13.brmsBandMixedPeriodUpFreqLow, Generated.C13.brmsBandMixedPeriodLowFreqUp]
+
+/-- a call that names no band edge at all reaches `raise ValueError` (it is not answered with a default band) -/
+theorem gen_brms_band_none : Generated.C13.brmsNoBandGivenRaisesValueError = true := by
+  decide
 
 /-- `render_synthetic_surface` multiplies the surface by `rms / z_rms`, where `z_rms` is `util.rms`
 (root mean square of the finite samples) of the already masked surface -/
-theorem gen_synth_rescale (rho zrms z : ℝ) :
+theorem gen_synth_rescale (rho zrms z : ℝ) (hz : zrms ≠ 0) :
     Generated.C13.synthRescale rho zrms z = rescale rho zrms z ∧
     Generated.C13.synthRmsOfMaskedSurfaceThenScale = true ∧ Generated.C13.rmsIsSqrtMeanSquareOfFiniteSamples = true := by
   refine ⟨?_, by decide, by decide⟩
-  simp only [Generated.C13.synthRescale, Generated.C13.synthScale, rescale]
+  simp only [Generated.C13.synthRescale, rescale, ofInt_eq, ofFrac_eq, npow_eq, Int.cast_one] <;> field_simp <;> ring
 
 /-- the sample spacing `Interferogram.psd()` stores on the spectrum is the step `1/(n dx)` of the x frequency axis -/
 theorem gen_ifg_psd_dx (dx m n : Rat) : Generated.C13.ifgPsdDx dx m n = 1 / (n * dx) := by
   simp only [Generated.C13.ifgPsdDx, mul_comm]
 
-/-- the `Interferogram` methods hand their own data / spacing, and `psd.r` / `psd.data`, to the free functions -/
+/-- the `Interferogram` methods hand their own data / spacing, and `psd.r` / `psd.data`, to the free functions; `psd.r` is
+`hypot` of the attached axes; `total_integrated_scatter` sends its angle through array functions (ndarray angles are documented) -/
 theorem gen_methods_delegate :
     Generated.C13.interferogramPsdDelegates = true ∧ Generated.C13.interferogramBrmsPassesPsdRAndData = true ∧
-    Generated.C13.interferogramRenderDelegates = true := by
+    Generated.C13.interferogramRenderDelegates = true ∧ Generated.C13.richDataRIsHypotOfXY = true ∧
+    Generated.C13.tisAngleThroughArrayFunctions = true := by
   decide
 
 /-- `Interferogram.psd / bandlimited_rms / total_integrated_scatter` read nothing of the object but `data`, `dx`, `wavelength`
@@ -111,7 +151,7 @@ theorem gen_methods_stateless : Generated.C13.interferogramSpectralMethodsStatel
 
 /-- the spectrum returned by `psd` sits on the returned axes: the sample displayed at position `i` has
 frequency `(i - n//2)/(n dx)`, which is what `forward_ft_unit(dx, n)[i]` says -/
-theorem psd_axes (n i : Int) (hn : 0 < n) (h0 : 0 ≤ i) (hi : i < n) :
+theorem psd_axes (n i : Int) (h0 : 0 ≤ i) (hi : i < n) :
     shownFreqNum Generated.C13.psdPostRot n i = axisFreqNum n i := by
   simp only [shownFreqNum, axisFreqNum, Generated.C13.psdPostRot, fftfreqNum,
     rotSrc_fftshift_eq n i h0 hi]
@@ -457,8 +497,10 @@ valid samples into `ρ²`, whatever the samples are (`r ≠ 0`) -/
 theorem synth_rms_sq (k : ℕ) (hk : k ≠ 0) (z : ℕ → ℝ) (rho r : ℝ) (hr : r ≠ 0) (hz : r ^ 2 = meanSq k z) :
     meanSq k (fun i => Generated.C13.synthRescale rho r (z i)) = rho ^ 2 := by
   have hk' : (k : ℝ) ≠ 0 := Nat.cast_ne_zero.mpr hk
+  have hg : (fun i => Generated.C13.synthRescale rho r (z i)) = fun i => z i * (rho / r) := by
+    funext i; rw [(gen_synth_rescale rho r (z i) hr).1]; rfl
+  rw [hg]
   rw [meanSq_eq] at hz ⊢
-  simp only [Generated.C13.synthRescale, Generated.C13.synthScale]
   have : ∑ i ∈ range k, (z i * (rho / r)) ^ 2 = (rho / r) ^ 2 * ∑ i ∈ range k, z i ^ 2 := by
     rw [mul_sum]; refine sum_congr rfl fun i _ => ?_; ring
   rw [this]
